@@ -1,5 +1,6 @@
 import Driver.Parse
 import Driver.FD
+import Driver.Unify
 /-!
   pvdriver: reads one case per line on stdin, runs the executable model, prints one canonical
   result line per case.  Unknown or malformed lines print `bad-case`.
@@ -10,6 +11,7 @@ def runLine (line : String) : String :=
   let ts := (line.trimAscii.toString.splitOn " ").filter (· ≠ "")
   match ts with
   | "fd" :: rest => runFD rest
+  | "unify" :: rest => runUnify rest
   | _ => "bad-case"
 
 partial def loop (h : IO.FS.Stream) (out : IO.FS.Stream) : IO Unit := do
